@@ -22,7 +22,9 @@
 (*                appeared/changed only by an os.replace of a complete dot  *)
 (*                file onto it                                              *)
 (*   C12.noExtra  SyncEnd lines: non-dot names are a subset of `expected`   *)
-(*   C12.present  SyncEnd lines of an undisturbed sync                      *)
+(*   C12.present  SyncEnd lines of an undisturbed sync; also SyncExc lines  *)
+(*                of an undisturbed sync that raised WITHOUT an injected    *)
+(*                fault (it never completes: same data, same exception)     *)
 (*   C12.content  SyncEnd lines of an undisturbed sync, files this sync     *)
 (*                renamed into place only                                   *)
 (*   C12.refresh  SyncEnd line of the undisturbed FIRST sync of a process   *)
@@ -195,10 +197,14 @@ Verdict(s, line, post, ag2, rd2, explained) ==
       zk == CanonZk(post.zk)
       end == line.ev = "SyncEnd"
       calm == end /\ ~ag2.disturbed
+      \* the synchronisation raised although no fault was injected and nothing
+      \* changed under it: it will do so again after every restart, so a placed
+      \* instance whose manifest exists stays without a cache file
+      selfexc == line.ev = "SyncExc" /\ ~line.injected /\ ~ag2.disturbed
   IN [fail |->
         F("C12.atomic", AtomicState(od) /\ StepOk(s.obs, line, post.dir))
         \cup (IF end THEN F("C12.noExtra", NoExtra(od, ag2.expected)) ELSE {})
-        \cup (IF calm THEN F("C12.present", Present(od, zk, ag2.expected)) ELSE {})
+        \cup (IF calm \/ selfexc THEN F("C12.present", Present(od, zk, ag2.expected)) ELSE {})
         \cup (IF calm THEN F("C12.content", Content(od, zk, ag2.written)) ELSE {})
         \cup (IF calm /\ ag2.start THEN F("C12.refresh", Refresh(od, zk, ag2.stale0)) ELSE {})
         \cup (IF s.rd.live \/ rd2.live \/ line.ev \in LiveEvs THEN {} ELSE F("drift.step", explained))
